@@ -13,6 +13,17 @@
 //	(e) backend "both": where the reference model leaves the answer open between a value and an
 //	          interrupt, the program runs on both runtimes in one case and both must make the same
 //	          choice (accepted by both or answered with an interrupt by both).
+//	(f) every program binds a second value `twin`, constructed exactly like the receiver and touched
+//	          by no statement, and probes it last: whatever the operation does to the receiver, the twin
+//	          is still the value that was written down (frame condition of the reference model).
+//
+// Receivers are produced in several ways (the property speaks of every runtime value of a type):
+// literal, parse_json + cast, object literal cast to { ? }, and — for every receiver in the in-place
+// assignments, for the last receiver of each type everywhere — as the variable of a for loop (the
+// copy the runtime makes of the element) and through a cast to its own type. The instances with
+// empty options / null in element and field cells ([?int], [{a:?int}], {a:?int,b:str},
+// {o:?str,l:[?int]}, any-objects holding none / null) put the "nothing there" values into the places
+// members read, write and serialise.
 //
 // Besides the instances of DESIGN.md the matrix holds objects whose data fields are named like
 // builtin members (names read from the analyzer's tables: those every object reserves, and those of
@@ -49,14 +60,19 @@ func (c18) Info(tier string) fw.Info {
 			"indices -len-1..len+1; elements present/absent), as Go-API key-set checks in both value libraries and as generated programs run on the VM and on the interpreter; plus indexing " +
 			"recv[i] / recv[\"k\"] / recv[k] / recv->k with the same index sets, and the same places (object fields, list elements, object keys) as assignment targets read back afterwards. " +
 			"The type instances include objects whose fields are named like builtin members (the names objects reserve, e.g. keys/to_json, and the names of {?} members, e.g. to_string/get/set) and an any-object with such data keys. " +
+			"Also lists and objects whose element / field cells hold empty options ([?int], [{a:?int}], {a:?int,b:str}, {o:?str,l:[?int]}) and any-objects holding none / null / a list with none. " +
 			"Where the reference model leaves the answer open (value or interrupt) the program additionally runs on both runtimes in one case and both must accept or both must interrupt. Receivers are built as literals and, where expressible, also by parse_json and by a cast to {?}; " +
+			"as the variable of a for loop over a one-element list and through a cast to the receiver's own type for every in-place assignment and, with up to 6 (thorough: 24) argument tuples per member, for the last receiver of each type. " +
+			"Every program also builds an untouched second value like the receiver and probes it after the operation (it must be unchanged). to_json / to_json_indent results are parsed and compared as documents with the receiver. " +
 			"null-returning members run as a statement and bound to a variable; ?any results are also observed uncast through .to_string(). thorough adds 7-element and seed-chosen receivers and up to 200 argument tuples. " +
 			"non-trivial = the analyzer accepted the program and the member/index operation was executed by the backend (its result was probed, or it raised an interrupt, or it crashed); " +
 			"for api cases: the analyzer lists the member and Fields() of the runtime values was evaluated. distinct = distinct (part, backend, receiver, member, arguments, form)",
 		Assumptions: []string{
 			"the reference model (props/c18/model.go) fixes: negative indices count from the end for indexing, insert (positions 0..len), remove, substring; out-of-range => interrupt; substring(len) may be the whole string or an interrupt",
 			"string operations at text level (replace/split/case/number parsing) and float rendering are mirrored from the Go standard library, not re-derived",
-			"members without a model entry (to_json*, to_string of objects, get_type, parse results of arbitrary JSON) are checked for survival, the advertised type, and that both runtimes agree on accepting / interrupting",
+			"members without a model entry (to_string of objects, get_type, to_json* of values holding a range) are checked for survival, the advertised type, and that both runtimes agree on accepting / interrupting",
+			"to_json / to_json_indent return JSON text that denotes the receiver: arrays with every element in order, objects with every data field, none / null as JSON null, Some(x) as x; layout, key order and number spelling are not modelled (C13)",
+			"an operation on one value leaves a second, separately constructed value alone, whatever produced the two (literal, parse_json, cast, loop variable)",
 			"a data field named like a builtin member is the member the analyzer offers (with the type of the field): reading and assigning it must reach the field in both runtimes",
 			"programs the analyzer rejects are skipped (counted as analyzer-rejected); the run is broken if a (backend,type,member) pair is never exercised",
 		},
@@ -82,13 +98,37 @@ func paramsOf(ft ast.FunctionType) ([]ast.FunctionTypeParam, bool) {
 type rcv struct {
 	V      rv
 	Origin string
+	// AssignOnly: this (receiver, origin) is used for the in-place assignments only
+	AssignOnly bool
 }
 
-func expand(vars []rv) []rcv {
+// extraTuples caps the argument tuples per (receiver, member) of the extra origins.
+func extraTuples(thorough bool) int {
+	if thorough {
+		return 24
+	}
+	return 6
+}
+
+// Extra reports whether the origin is one of the extra origins.
+func (r rcv) Extra() bool { return r.Origin == "loop" || r.Origin == "as" }
+
+// expand lists the (receiver, origin) combinations of an instance. Every receiver is built through
+// each of its base origins. The extra origins (loop variable, cast to its own type) are used with
+// every receiver for the in-place assignments (the operation that writes into a cell the origin
+// created) and with the last receiver of the quick matrix (the "many" one) for everything else.
+func expand(in inst) []rcv {
+	last := ""
+	if q, ok := instByName(in.Name); ok && len(q.Vars) > 0 {
+		last = show(q.Vars[len(q.Vars)-1])
+	}
 	var out []rcv
-	for _, v := range vars {
+	for _, v := range in.Vars {
 		for _, o := range originsOf(v) {
-			out = append(out, rcv{v, o})
+			out = append(out, rcv{v, o, false})
+		}
+		for _, o := range extraOriginsOf(in, v) {
+			out = append(out, rcv{v, o, show(v) != last})
 		}
 	}
 	return out
@@ -109,6 +149,7 @@ func (c18) Cases(tier string, seed uint64) []fw.Case {
 	poisoned := map[string][]fw.Case{}
 	n := 0
 	add := func(p payload) {
+		p.Twin = p.Part != "api"
 		tags, open := tagsFor(&p)
 		id := fmt.Sprintf("c18-%s-%06d", p.Part, n)
 		n++
@@ -149,11 +190,13 @@ func (c18) Cases(tier string, seed uint64) []fw.Case {
 					base[show(v)] = true
 				}
 			}
-			for _, rc := range expand(in.Vars) {
+			for _, rc := range expand(in) {
 				recv, origin := rc.V, rc.Origin
 				if !isFn {
-					src, pr := callProgram(in, recv, origin, m, mt, nil, "let")
-					addRuns(payload{Part: "field", Inst: in.Name, Recv: recv, Origin: origin, Member: m, Form: "let", Print: pr, Src: src}, modelMember(recv, m, nil))
+					if !rc.AssignOnly {
+						src, pr := callProgram(in, recv, origin, m, mt, nil, "let")
+						addRuns(payload{Part: "field", Inst: in.Name, Recv: recv, Origin: origin, Member: m, Form: "let", Print: pr, Src: src}, modelMember(recv, m, nil))
+					}
 					// the same member as the target of an assignment, read back afterwards
 					if cur, isData := recv.M[m]; isData && recv.K == "obj" && typeText(mt) != "" {
 						if v, ok := otherValue(mt, cur); ok {
@@ -164,7 +207,7 @@ func (c18) Cases(tier string, seed uint64) []fw.Case {
 					continue
 				}
 				params, ok := paramsOf(ft)
-				if !ok {
+				if !ok || rc.AssignOnly {
 					continue
 				}
 				forms := []string{"let"}
@@ -175,13 +218,19 @@ func (c18) Cases(tier string, seed uint64) []fw.Case {
 					// a null result cannot be passed to probe(): run the call as a statement, and
 					// bound to a variable that is then wrapped in a list
 					forms = []string{"stmt", "bound"}
-					if !base[show(recv)] {
+					if !base[show(recv)] || rc.Extra() {
 						// the bound form observes the null value itself, not the member: the
 						// receivers of the quick matrix are enough for it
 						forms = []string{"stmt"}
 					}
 				}
-				for _, args := range argTuples(params, recv, thorough) {
+				tuples := argTuples(params, recv, thorough)
+				if rc.Extra() {
+					// the extra origins repeat the member on a value that was produced differently:
+					// a few argument tuples (first and last included) are enough for that
+					tuples = strideTuples(tuples, extraTuples(thorough))
+				}
+				for _, args := range tuples {
 					for _, form := range forms {
 						src, pr := callProgram(in, recv, origin, m, mt, args, form)
 						addRuns(payload{Part: "call", Inst: in.Name, Recv: recv, Origin: origin, Member: m, Args: args, Form: form, Print: pr, Src: src}, modelMember(recv, m, args))
@@ -190,13 +239,15 @@ func (c18) Cases(tier string, seed uint64) []fw.Case {
 			}
 		}
 		// (c) indexing
-		for _, rc := range expand(in.Vars) {
+		for _, rc := range expand(in) {
 			recv, origin := rc.V, rc.Origin
 			switch recv.K {
 			case "list", "str":
 				for _, idx := range indexPool(recv) {
-					src, pr := indexProgram(in, recv, origin, "idx-int", idx, "let")
-					addRuns(payload{Part: "idx-int", Inst: in.Name, Recv: recv, Origin: origin, Args: []rv{idx}, Form: "let", Print: pr, Src: src}, modelIndex(recv, idx))
+					if !rc.AssignOnly {
+						src, pr := indexProgram(in, recv, origin, "idx-int", idx, "let")
+						addRuns(payload{Part: "idx-int", Inst: in.Name, Recv: recv, Origin: origin, Args: []rv{idx}, Form: "let", Print: pr, Src: src}, modelIndex(recv, idx))
+					}
 					// the same place as the target of an assignment (lists only: a string is a value)
 					lt, isList := in.T.(ast.ListType)
 					if !isList || typeText(lt.Inner) == "" {
@@ -232,6 +283,9 @@ func (c18) Cases(tier string, seed uint64) []fw.Case {
 							forms = append(forms, "chain")
 						}
 						for _, form := range forms {
+							if rc.AssignOnly {
+								continue
+							}
 							src, pr := indexProgram(in, recv, origin, part, vStr(k), form)
 							e := modelIndex(recv, vStr(k))
 							if part == "arrow" {
@@ -293,11 +347,19 @@ func finish(p *payload, res fw.Result, fails []failure) fw.Result {
 	}
 	res.Verdict = fw.Violated
 	res.Sig = site + ":" + fails[0].class
-	res.Why = describe(p) + ": " + fails[0].why
+	res.Why = explain(p, fails[0].why)
 	for _, f := range fails[1:] {
-		res.More = append(res.More, fw.SubViolation{Sig: site + ":" + f.class, Why: describe(p) + ": " + f.why})
+		res.More = append(res.More, fw.SubViolation{Sig: site + ":" + f.class, Why: explain(p, f.why)})
 	}
 	return res
+}
+
+// explain puts the reason before the program: long programs are clipped by the report.
+func explain(p *payload, why string) string {
+	if p.Part == "api" {
+		return describe(p) + ": " + why
+	}
+	return fmt.Sprintf("[%s %s] %s :: program=%q", p.Backend, p.Part, why, p.Src)
 }
 
 func describe(p *payload) string {
@@ -562,7 +624,11 @@ func judge(p *payload, in inst, e expect, adv ast.Type, ob observed) []failure {
 	if oc.Class != "ok" {
 		// an interrupt (fatal error, uncaught throw, ...)
 		if e.Mode == mValue {
-			return []failure{{"unexpected-interrupt:" + oc.Class + "/" + oc.Kind, fmt.Sprintf("expected result %s but the run ended with %s", show(e.Val), util.Clip(oc.String(), 200))}}
+			want := show(e.Val)
+			if e.JSON {
+				want = "JSON text for " + want
+			}
+			return []failure{{"unexpected-interrupt:" + oc.Class + "/" + oc.Kind, fmt.Sprintf("expected result %s but the run ended with %s", want, util.Clip(oc.String(), 200))}}
 		}
 		return nil
 	}
@@ -575,19 +641,28 @@ func judge(p *payload, in inst, e expect, adv ast.Type, ob observed) []failure {
 		return []failure{{"no-interrupt", fmt.Sprintf("an out-of-range / failing operation must end in an interrupt, but the run completed with result %s", got)}}
 	}
 	// which probes are expected
-	var r, recvAfter *rv
+	var r, recvAfter, twin *rv
+	rest := ob.probes
+	if p.Twin && len(rest) > 0 {
+		twin, rest = &rest[len(rest)-1], rest[:len(rest)-1]
+	}
 	switch p.Form {
 	case "stmt":
-		if len(ob.probes) == 1 {
-			recvAfter = &ob.probes[0]
+		if len(rest) == 1 {
+			recvAfter = &rest[0]
 		}
 	default:
-		if len(ob.probes) == 2 {
-			r, recvAfter = &ob.probes[0], &ob.probes[1]
+		if len(rest) == 2 {
+			r, recvAfter = &rest[0], &rest[1]
 		}
 	}
 	if recvAfter == nil {
 		return []failure{{"no-probe", fmt.Sprintf("the run ended ok but %d values were probed", len(ob.probes))}}
+	}
+	// frame condition: the second value, built like the receiver and touched by no statement, is
+	// still the value that was written down
+	if twin != nil && !eq(*twin, p.Recv) {
+		fails = append(fails, failure{"other-value-changed", fmt.Sprintf("a second value constructed as %s, which the program never touches, is %s after the operation on the receiver (the two values share storage, or the construction did not deliver the value)", show(p.Recv), show(*twin))})
 	}
 	// typed result
 	ct := checkType(adv, e)
@@ -612,6 +687,14 @@ func judge(p *payload, in inst, e expect, adv ast.Type, ob observed) []failure {
 		return fails
 	}
 	// reference model
+	if e.JSON {
+		haveWant = false
+		if r != nil && r.K == "str" {
+			if ok, why := judgeJSON(r.S, e.Val); !ok {
+				fails = append(fails, failure{"wrong-result", why})
+			}
+		}
+	}
 	if r != nil && haveWant {
 		same := eq(*r, want)
 		if !same && e.AsSet {
